@@ -8,6 +8,7 @@ import (
 
 	"github.com/cloudwego/hertz/pkg/common/bytebufferpool"
 	errs "github.com/cloudwego/hertz/pkg/common/errors"
+	"github.com/cloudwego/hertz/pkg/network"
 	"github.com/cloudwego/hertz/pkg/network/standard"
 	"github.com/cloudwego/hertz/pkg/protocol"
 	"github.com/cloudwego/hertz/pkg/protocol/http1/ext"
@@ -51,12 +52,21 @@ func init() {
 			}
 			buf := &bytebufferpool.ByteBuffer{B: make([]byte, 0, capDst)}
 			var err error
-			buf.B, err = ext.ReadBodyWithStreaming(zr, n, limit, buf.B)
+			rec := &lenRecorder{Reader: zr}
+			buf.B, err = ext.ReadBodyWithStreaming(rec, n, limit, buf.B)
 			if err != nil && !errors.Is(err, errs.ErrBodyTooLarge) {
 				bad("prefetch-error-on-a-complete-body", err.Error())
 				return fs
 			}
 			p := buf.B
+			// the number of bytes taken, against Model/Prefetch.v fed with the Len() answers the loop saw
+			margs := [][]byte{[]byte(fmt.Sprint(n)), []byte(fmt.Sprint(max0(limit))), []byte(fmt.Sprint(capDst))}
+			for _, a := range rec.avail {
+				margs = append(margs, []byte(fmt.Sprint(a)))
+			}
+			if mod := t.M.Call("prefetch_script", margs...); mod != fmt.Sprint(len(p)) {
+				fs = append(fs, Finding{Kind: "corr", Unit: "c14.prefetch", Class: "prefetch_script", Impl: fmt.Sprint(len(p)), Model: mod, Note: fmt.Sprint(rec.avail)})
+			}
 			if len(p) > n {
 				bad("prefetched-more-than-the-body", fmt.Sprintf("%d bytes prefetched, body has %d (limit %d, buffer capacity %d)", len(p), n, limit, capDst))
 			}
@@ -82,7 +92,7 @@ func init() {
 			return fs
 		},
 		Gen: func(t *T) {
-			for i := 0; i < t.Scale(3000, 60000); i++ {
+			for i := 0; i < t.Scale(1200, 40000); i++ {
 				n := []int{0, 1, 100, 4096, 8191, 8192, 8193, 8200, 9000, 12000, 20000, 70000}[t.R.Intn(12)]
 				limit := []int{0, 0, 50, 4096, 8192, 8500, 10000, 69999, 70000, 1 << 22}[t.R.Intn(10)]
 				capDst := []int{0, 0, 1024, 8192, 8193, 16384, 131072}[t.R.Intn(7)]
@@ -91,4 +101,25 @@ func init() {
 				t.Do(In{Nn(n), Nn(limit), Nn(capDst), Nn(frag), Nn(take)}, true)
 			}
 		}})
+}
+
+// lenRecorder notes, at every Skip, what the preceding Len() call answered: the `avail` sequence of
+// readBodyIdentity's loop
+type lenRecorder struct {
+	network.Reader
+	last  int
+	avail []int
+}
+
+func (r *lenRecorder) Len() int { r.last = r.Reader.Len(); return r.last }
+func (r *lenRecorder) Skip(n int) error {
+	r.avail = append(r.avail, r.last)
+	return r.Reader.Skip(n)
+}
+
+func max0(n int) int {
+	if n < 0 {
+		return 0
+	}
+	return n
 }
